@@ -1158,7 +1158,9 @@ class C18(Check):
             "(c) cyclic inputs — through data-class fields, through single-item lists / tuples standing for a mapping, and built "
             "from lists / tuples alone (x=[x], x=[(x,)], x=[[x]]) at every position —, (d) a single invalid leaf below k levels, "
             "(e) JSON-like unions nested through containers without a data class, depth 1..12, valid / lossy / invalid leaf; "
-            "entry points K(**d), K.__from__, type_transform. "
+            "entry points K(**d), K.__from__, type_transform; (f) second steps after the parse: setattr / setitem / update / |= on the "
+            "n-th instance of the parsed tree at every level (also on the unlimited twin and on a directly constructed instance) "
+            "and re-parse of sub-values taken out of the tree. "
             "Every case runs with the declared limits and with all limits removed.  non-trivial = the input reaches a nested "
             "data class (result or input nesting >= 2) or is cyclic; distinct by (declaration, input, entry)")
     assumptions = [
